@@ -27,7 +27,7 @@ def run(ctx, res):
     OKV, FAILV = mres["mtbl_res_success"], mres["mtbl_res_failure"]
     nxt = prog.need("merger_iter_next", U)
     res.saw(nxt)
-    ev = APE.run(prog, cg, nxt, bound=2 if ctx.tier == "thorough" else 1)
+    ev = APE.run(prog, cg, nxt, bound=3 if ctx.tier == "thorough" else 2)
     res.floor("C04.R1", 1)
     res.floor("C04.R2", 6)
     res.floor("C04.R3", 1)
@@ -183,6 +183,30 @@ def run(ctx, res):
                             res.check(consumed == 1 and not mcalls, "C04.R5", site(nxt, "no-merge-function"),
                                       "without a merge function exactly one entry is taken per call",
                                       "without a merge function %d entries are consumed in one call" % consumed, None, p.describe(nxt))
+    # R1b: failure is reported by leaving the out pointer NULL, so it must be NULL when the merge function is called
+    nchk = 0
+    for p in ev.paths:
+        cur = {}
+        for e in p.events:
+            if e.kind == "store" and e.a.isidentifier():
+                cur[e.a] = e.b
+            elif e.kind == "call":
+                if e.a.startswith("(*") and "merge" in e.a:
+                    for i, v in enumerate(e.b):
+                        vs = APE.vstr(v)
+                        if vs.startswith("&") and vs[1:].isidentifier() and i in e.outs and "len" not in vs:
+                            nchk += 1
+                            res.check(cur.get(vs[1:]) == ("c", 0), "C04.R1", site(nxt, "merge-out-pointer-null"),
+                                      "the result pointer handed to the merge function is NULL at every call (a failed merge leaves it untouched)",
+                                      "the merge function is called with a result pointer that still holds %s from an earlier fold: a merge failure "
+                                      "(pointer left untouched) goes unnoticed and the stale, already freed value is used" % APE.vstr(cur.get(vs[1:])) ,
+                                      nxt.loc(e.node), p.describe(nxt))
+                for i, sym in e.outs.items():
+                    vs = APE.vstr(e.b[i])
+                    if vs.startswith("&") and vs[1:].isidentifier():
+                        cur[vs[1:]] = sym
+    if nchk == 0:
+        raise BrokenAnalysis("merger_iter_next: merge call out-pointer not recognised")
     if n_merge_fail == 0 and ev.paths:
         res.bad("C04.R1", site(nxt, "merge-returned-NULL"), "no path tests the merge result for failure", nxt.loc(nxt.body))
 
